@@ -149,7 +149,8 @@ def fam_invert(draw):
     feats = []
     if any(o in ("<", "<=", ">", ">=") for o in ops) and any("{" in v or "nan" in v for v in concrete):
         feats.append("ordering-on-partial-order")
-    if n == 2 and ops[0] == "is" and vals[1] in ("True", "False") and concrete[0] not in ("True", "False"):
+    # `not not (x is not True)` reaches the same simplification through the inner rewrite
+    if n == 2 and ops[0] in ("is", "is not") and vals[1] in ("True", "False") and concrete[0] not in ("True", "False"):
         feats.append("is-bool-literal-on-non-bool")
     if n > 2:
         feats.append("chain")
@@ -276,25 +277,30 @@ MODS = ["os", "sys", "json", "math", "collections", "itertools", "re", "string"]
 def fam_imports(draw):
     mods = draw(st.lists(st.sampled_from(MODS), min_size=2, max_size=5, unique=True))
     used = draw(st.lists(st.sampled_from(mods), min_size=1, max_size=len(mods), unique=True))
-    lines = []
+    bound = {}  # module -> name it is bound to
+    items = []
     for m in mods:
-        form = draw(st.sampled_from(["import {m}", "import {m}", "import {m} as {m}_al", "from {m} import *" if False else "import {m}"]))
-        lines.append(form.format(m=m))
-    if draw(st.booleans()):
-        lines.insert(draw(st.integers(0, len(lines))), "from collections import OrderedDict, defaultdict")
+        if draw(st.integers(0, 2)) == 0:
+            bound[m] = m + "_al"
+            items.append(f"{m} as {m}_al")
+        else:
+            bound[m] = m
+            items.append(m)
+    # group into statements: one module per statement or several per statement (`import a, b as c`)
+    lines = []
+    i = 0
+    while i < len(items):
+        k = draw(st.sampled_from([1, 1, 2, 3]))
+        lines.append("import " + ", ".join(items[i:i + k]))
+        i += k
+    froms = draw(st.sampled_from([None, None, "from collections import OrderedDict, defaultdict", "from collections import OrderedDict as OD, defaultdict", "from os import path as p, sep"]))
+    if froms:
+        lines.insert(draw(st.integers(0, len(lines))), froms)
     if draw(st.integers(0, 3)) == 0:
-        lines.insert(0, "from __future__ import annotations, print_function")
-    multi = draw(st.integers(0, 3)) == 0
-    if multi and len(lines) >= 2:
-        a = [l for l in lines if l.startswith("import ") and " as " not in l][:2]
-        if len(a) == 2:
-            lines = [l for l in lines if l not in a] + ["import " + ", ".join(x[len("import "):] for x in a)]
-    uses = []
-    for m in used:
-        name = m + "_al" if f"import {m} as {m}_al" in lines else m
-        uses.append(f"print({name}.__name__)")
-    if any("OrderedDict" in l for l in lines) and draw(st.booleans()):
-        uses.append("print(OrderedDict().__class__.__name__)")
+        lines.insert(0, draw(st.sampled_from(["from __future__ import annotations, print_function", "from __future__ import division, annotations", "from __future__ import print_function", "from __future__ import generator_stop, annotations, division"])))
+    uses = [f"print({bound[m]}.__name__)" for m in used]
+    if froms and draw(st.booleans()):
+        uses.append({"from collections import OrderedDict, defaultdict": "print(OrderedDict().__class__.__name__)", "from collections import OrderedDict as OD, defaultdict": "print(OD.__name__, defaultdict.__name__)", "from os import path as p, sep": "print(p.__name__, len(sep))"}[froms])
     return "\n".join(lines) + "\n\n" + "\n".join(uses) + "\nprint('ok')\n"
 
 
@@ -419,7 +425,9 @@ def run_shard(spec):
     stats = core.Stats()
     for cid in spec["codemods"]:
         fam = FAMILIES[cid]
-        strat = st.lists(fam(), min_size=spec["batch"], max_size=spec["batch"])
+        # programs of the plain (semgrep-free) codemods are cheap: twice the batch
+        batch = spec["batch"] * (1 if engine.kind_of(engine.codemod_by_id(cid)) == "rule" else 2)
+        strat = st.lists(fam(), min_size=batch, max_size=batch)
         core.drive(strat, lambda progs, cid=cid: judge_batch(cid, progs, stats), spec["n"], spec["seed"] + engine.hash_str(cid) % 997)
     return stats
 
